@@ -194,6 +194,99 @@ def wc_units(tier: str) -> List[Any]:
     return units
 
 
+def check_recreated() -> Dict[str, Any]:
+    """Processes recreated from a checkpoint must be as killable as freshly constructed ones: for every small program, every
+    live quiescent point (waiting, or paused after a pause request before tick t), bundle -> pickle -> unbundle on a fresh
+    loop, then kill() / future().cancel() (optionally after play()), drain: the process must end KILLED."""
+    import pickle
+    from plumpy import persistence
+    from ..vloop import VLoop
+    out: Dict[str, Any] = {'n': 0, 'violations': [], 'nontrivial': 0}
+    progs = list(programs.linear_programs(2, ('S', 'Y1'), ('cont', 'wait'), ('ret',)))
+
+    class Env:
+        def __init__(self) -> None:
+            self.raised: List[Any] = []
+            self.loop: Any = None
+            self.pre_pause_status = None
+            self.n_choice = 0
+
+        def attach(self, proc: Any) -> None:
+            pass
+
+        def record(self, proc: Any, name: str, args: tuple, kwargs: dict, phase: str) -> None:
+            if phase == 'enter':
+                proc._trace.append((name,))
+
+        def gate(self, proc: Any, idx: int) -> Any:
+            return self.loop.create_future()
+
+    for program in progs:
+        cls = programs.make_class(program)
+        for pause_at in (None, 0, 1, 2, 3):
+            for request in ('kill', 'cancel', 'play+kill', 'play+cancel'):
+                env = Env()
+                prev, programs.ENV = programs.ENV, env
+                loop = VLoop()
+                env.loop = loop
+                loop.install()
+                loop2 = None
+                try:
+                    proc = cls(pid='r0', loop=loop)
+                    loop.create_task(proc.step_until_terminated())
+                    ticks = 0
+                    while True:
+                        if pause_at is not None and ticks == pause_at and not proc.has_terminated():
+                            proc.pause()
+                            pause_at = -1
+                        if not loop.tick():
+                            break
+                        ticks += 1
+                    if proc.has_terminated() or not (proc.paused or proc.state == ctl.ProcessState.WAITING):
+                        continue
+                    point = 'paused' if proc.paused else 'waiting'
+                    if request.startswith('play') and not proc.paused:
+                        continue
+                    bundle = pickle.loads(pickle.dumps(persistence.Bundle(proc)))
+                    loop.shutdown()
+                    loop2 = VLoop()
+                    env.loop = loop2
+                    loop2.install()
+                    again = bundle.unbundle(persistence.LoadSaveContext(loop=loop2))
+                    task = loop2.create_task(again.step_until_terminated())
+                    loop2.drain()
+                    out['n'] += 1
+                    out['nontrivial'] += 1
+                    ret: Any = None
+                    if request.startswith('play'):
+                        again.play()
+                    if request.endswith('kill'):
+                        ret = again.kill('t1')
+                    else:
+                        again.future().cancel()
+                    loop2.drain()
+                    if again.paused and not again.has_terminated():
+                        again.play()
+                        loop2.drain()
+                    case = {'part': 'recreated', 'program': program, 'pause_at': pause_at, 'request': request}
+                    if again.state != ctl.ProcessState.KILLED:
+                        out['violations'].append({'clause': 'recreated:kill-lost', 'features': {'request': request, 'point': point},
+                                                  'detail': f'recreated process is {again.state} (paused={again.paused}) after {request}',
+                                                  'case': case})
+                    elif request.endswith('kill') and ctl.fut_status(ret) not in (('value', True), ('result', True)):
+                        out['violations'].append({'clause': 'recreated:kill-result', 'features': {'request': request, 'point': point},
+                                                  'detail': repr(ctl.fut_status(ret)), 'case': case})
+                    elif not task.done():
+                        out['violations'].append({'clause': 'recreated:stepping-blocked', 'features': {'request': request, 'point': point},
+                                                  'detail': None, 'case': case})
+                finally:
+                    programs.ENV = prev
+                    loop.shutdown()
+                    if loop2 is not None:
+                        loop2.shutdown()
+    return out
+
+
 def run_check(tier: str, seed: int, workers: Any) -> Dict[str, Any]:
     from .. import runner
     part1 = run_processes(tier, seed, workers)
@@ -205,7 +298,19 @@ def run_check(tier: str, seed: int, workers: Any) -> Dict[str, Any]:
         assumptions=[], bounds=dict(budget, n_items=2), describe=lambda u: {'items': u[0][0], 'how': u[0][1]})
     for v in part2['violations']:
         v['features'] = dict(v.get('features', {}), part='workchain')
-    return runner.merge([part1, part2])
+    out = runner.merge([part1, part2])
+    part3 = check_recreated()
+    out['coverage']['evaluations'] += part3['n']
+    out['coverage']['traces_validated_against_impl'] += part3['n']
+    out['coverage']['transitions'] += part3['n']
+    out['coverage']['recreated_process_runs'] = part3['n']
+    out['coverage']['rule'] += ' || recreated processes: every small program x every waiting / paused quiescent point x ' \
+                               'bundle-pickle-unbundle on a fresh loop x {kill, cancel, play+kill, play+cancel}'
+    best: Dict[Any, Any] = {}
+    for v in part3['violations']:
+        best.setdefault((v['clause'], repr(sorted(v['features'].items()))), v)
+    out['violations'].extend(best.values())
+    return out
 
 
 def run_processes(tier: str, seed: int, workers: Any) -> Dict[str, Any]:
@@ -232,6 +337,8 @@ def is_wc_unit(unit: Any) -> bool:
 def replay(doc: Dict[str, Any]) -> List[Dict[str, Any]]:
     from ..cli import to_tuple
     from ..explore import Chooser
+    if (doc.get('case') or {}).get('part') == 'recreated':
+        return check_recreated()['violations']
     unit = to_tuple(doc['unit'])
     run = (wc_factory() if is_wc_unit(unit) else factory()).make_run(unit)
     res = run(Chooser(tuple(doc['choices'])))
